@@ -404,12 +404,21 @@ def forall(vs, body, patterns=None):
     """z3.ForAll that drops user patterns z3 rejects (patterns may not contain ite or
     boolean structure) instead of failing."""
     _check_no_capture(vs, body)
+    kw = {}
+    if _QID:      # debugging aid (PYVC_QID=1): name every quantifier after the line that built it (for smt.qi.profile)
+        import sys
+        f = sys._getframe(1)
+        kw["qid"] = f"{f.f_code.co_filename.rsplit('/', 1)[-1].replace('.', '_')}_{f.f_lineno}"
     if patterns and not any(_has_ite(p) for p in patterns):
         try:
-            return z3.ForAll(vs, body, patterns=patterns)
+            return z3.ForAll(vs, body, patterns=patterns, **kw)
         except z3.Z3Exception:
             pass
-    return z3.ForAll(vs, body)
+    return z3.ForAll(vs, body, **kw)
+
+
+import os as _os
+_QID = bool(_os.environ.get("PYVC_QID"))
 
 
 def _has_ite(t):
